@@ -62,7 +62,7 @@ func runC06(c *Ctx) {
 	}
 
 	c.ruleRegistryInserts()
-	c.ruleFlatten()
+	c.ruleFlatten("C06.flatten")
 	// re-registering a node keeps the count of the pipelines that still list it
 	c.ruleRegisterNode("C06.carry")
 
@@ -601,6 +601,10 @@ func runC07(c *Ctx) {
 	r.NotDecided = []string{"what a concurrent Send observes while the Store happens (sync.Map semantics, A4)"}
 	_ = p
 	c.ruleOptionDefaults()
+	if gf := c.Fn("C07.defaults", PkgRoot, "", "getOpts"); gf != nil {
+		// "invalid policy values are rejected": the error of EVERY option reaches the caller
+		c.errorFlowRule("C07.defaults", gf, nil, false)
+	}
 	// --- C07.opts
 	for _, name := range []string{"WithPipelineRegistrationPolicy", "WithNodeRegistrationPolicy"} {
 		fn := c.Fn("C07.opts", PkgRoot, "", name)
